@@ -456,6 +456,29 @@ def main(argv=None):
 _ALLOWED_AXIOMS = {"propext", "Classical.choice", "Quot.sound"}
 
 
+def _only_called_from(cls_node, roots):
+    """Names of methods of the class that are (transitively) only ever referenced from the methods in `roots`:
+    private helpers a refactoring may extract.  A step contract executes its function together with such helpers,
+    so state they touch is still inside the step contract."""
+    import ast
+    funcs = {n.name: n for n in ast.walk(cls_node) if isinstance(n, (ast.FunctionDef, ast.AsyncFunctionDef))}
+
+    def mentions(node, name):
+        return any(isinstance(x, ast.Attribute) and x.attr == name for x in ast.walk(node))
+    allowed = set(roots)
+    changed = True
+    while changed:
+        changed = False
+        for name, fn in funcs.items():
+            if name in allowed:
+                continue
+            users = [o for o, f in funcs.items() if o != name and mentions(f, name)]
+            if users and all(u in allowed for u in users):
+                allowed.add(name)
+                changed = True
+    return allowed
+
+
 def _queue_frame_fact():
     """Syntactic frame condition the FIFO lemma needs: in the real socket.py the pending queue is only mutated
     by __init__, _enqueue_message and _drain_message_queue, and writer.write is only called by _write."""
@@ -468,19 +491,21 @@ def _queue_frame_fact():
     def is_queue(n):
         return isinstance(n, ast.Attribute) and n.attr == "_message_queue"
     for cls in [n for n in ast.walk(tree) if isinstance(n, ast.ClassDef)]:
+        q_ok = _only_called_from(cls, ["_enqueue_message", "_drain_message_queue"])
+        w_ok = _only_called_from(cls, ["_write"])
         for fn in [n for n in ast.walk(cls) if isinstance(n, (ast.FunctionDef, ast.AsyncFunctionDef))]:
             for n in ast.walk(fn):
                 if isinstance(n, ast.Call) and isinstance(n.func, ast.Attribute):
-                    if is_queue(n.func.value) and n.func.attr in mut and fn.name not in ("_enqueue_message", "_drain_message_queue"):
+                    if is_queue(n.func.value) and n.func.attr in mut and fn.name not in q_ok:
                         bad.append(f"{fn.name}: _message_queue.{n.func.attr}()")
                     if n.func.attr in ("write", "writelines") and isinstance(n.func.value, ast.Attribute) and n.func.value.attr == "_writer" \
-                            and fn.name != "_write":
+                            and fn.name not in w_ok:
                         bad.append(f"{fn.name}: _writer.{n.func.attr}()")
                 if isinstance(n, (ast.Assign, ast.AugAssign, ast.AnnAssign, ast.Delete)):
                     tg = n.targets if isinstance(n, (ast.Assign, ast.Delete)) else [n.target]
                     for t in tg:
                         base = t.value if isinstance(t, ast.Subscript) else t
-                        if is_queue(base) and fn.name not in ("__init__", "_enqueue_message", "_drain_message_queue"):
+                        if is_queue(base) and fn.name != "__init__" and fn.name not in q_ok:
                             bad.append(f"{fn.name}: assignment / del on _message_queue")
     return bad
 
@@ -492,10 +517,12 @@ def _connection_frame_fact():
     tree = ast.parse(open(os.path.join(REPO, "pyairtouch", "comms", "socket.py")).read())
     bad = []
     for cls in [n for n in ast.walk(tree) if isinstance(n, ast.ClassDef)]:
+        c_ok = _only_called_from(cls, ["_connect"])
+        rw_ok = _only_called_from(cls, ["_connect", "_disconnect"])
         for fn in [n for n in ast.walk(cls) if isinstance(n, (ast.FunctionDef, ast.AsyncFunctionDef))]:
             for n in ast.walk(fn):
                 if isinstance(n, ast.Call) and isinstance(n.func, ast.Attribute) and n.func.attr in ("open_connection", "start_server", "create_connection") \
-                        and fn.name != "_connect":
+                        and fn.name not in c_ok:
                     bad.append(f"{fn.name}: {n.func.attr}()")
                 if isinstance(n, (ast.Assign, ast.AugAssign, ast.AnnAssign)):
                     tg = n.targets if isinstance(n, ast.Assign) else [n.target]
@@ -503,7 +530,7 @@ def _connection_frame_fact():
                     for t in tg:
                         flat.extend(t.elts if isinstance(t, (ast.Tuple, ast.List)) else [t])
                     for t in flat:
-                        if isinstance(t, ast.Attribute) and t.attr in ("_reader", "_writer") and fn.name not in ("__init__", "_connect", "_disconnect"):
+                        if isinstance(t, ast.Attribute) and t.attr in ("_reader", "_writer") and fn.name != "__init__" and fn.name not in rw_ok:
                             bad.append(f"{fn.name}: assignment to {t.attr}")
     return bad
 
